@@ -8,7 +8,7 @@ open Imeta Imeta.Xmp
 
 /-- **Array items in document order.**  Inside rdf:Seq / rdf:Bag / rdf:Alt (`parent`, below the property `parent.parent`) the
 items `<rdf:li>v</rdf:li>` — any element name other than the array's own, each behind any run of bytes other than '<' up to
-1410 bytes, values without '<' that do not start with white space and fit the first 512-byte window — are handed to the
+1410 bytes, values without '<' that do not start with white space and are shorter than 1536 bytes — are handed to the
 parser layer as exactly one token per item: the array's property, exactly the value, in document order, repeated values
 included; exactly the items and the array's stop tag are consumed and the walk ends without error. -/
 theorem C13_array_items_in_document_order (parent : Tag) (wsE : Bytes) (n0 : UInt8) (ns name R : Bytes)
